@@ -47,9 +47,35 @@ theorem edParser_rt (ed : Option Date) (hed : ∀ d, ed = some d → wfDate d = 
     have := date_rt d (hed d rfl) (' ' :: Z) (by simp)
     simp [edPart, opt, this]
 
+/-- what follows the code position when no code is printed: not a `(` that is closed on its line (a `(` is followed by
+text without `)`, CR, LF up to a line feed) — then `paren_str` fails and the optional code backtracks -/
+def NoCodeAhead (Z : List Char) : Prop :=
+  ∀ r, Z = '(' :: r → ∃ a b, r = a ++ '\n' :: b ∧ ∀ x ∈ a, isParenStrStop x = false
+
+/-- a payee without `;`, CR, LF that does not begin with `(`, or begins with `(` and holds no `)`, followed by the line feed -/
+theorem noCodeAhead_payee {s : List Char} (hs : ∀ c ∈ s, (c == ';' || c == '\r' || c == '\n') = false)
+    (hp : (s.head? != some '(' || !s.contains ')') = true) (Zm : List Char) : NoCodeAhead (s ++ '\n' :: Zm) := by
+  intro r e
+  cases s with
+  | nil => cases e
+  | cons c s' =>
+    simp only [List.cons_append, List.cons.injEq] at e
+    obtain ⟨rfl, rfl⟩ := e
+    refine ⟨s', Zm, rfl, ?_⟩
+    intro x hx
+    have h1 := hs x (List.mem_cons_of_mem _ hx)
+    simp only [List.head?_cons, bne_self_eq_false, Bool.false_or, Bool.not_eq_true', List.contains_cons] at hp
+    simp only [Bool.or_eq_false_iff, beq_eq_false_iff_ne] at hp h1
+    have h2 : x ≠ ')' := by
+      intro e
+      subst e
+      have := hp.2
+      simp [hx] at this
+    simp [isParenStrStop, h2, h1.1.2, h1.2]
+
 /-- the code -/
-theorem codeParser_rt (code : Option String) (hc : ∀ c, code = some c → ∀ x ∈ c.toList, x ≠ ')') (Z : List Char)
-    (hZ : Stop isSpace Z) (hn : code = none → ∀ r, Z ≠ '(' :: r) :
+theorem codeParser_rt (code : Option String) (hc : ∀ c, code = some c → ∀ x ∈ c.toList, isParenStrStop x = false)
+    (Z : List Char) (hZ : Stop isSpace Z) (hn : code = none → NoCodeAhead Z) :
     opt (terminated parenStr space0) (codePart code ++ Z) = .ok (code.map String.toList) Z := by
   cases code with
   | none =>
@@ -57,11 +83,16 @@ theorem codeParser_rt (code : Option String) (hc : ∀ c, code = some c → ∀ 
     cases Z with
     | nil => simp [codePart, opt, parenStr, paren]
     | cons d r =>
-      have hd : d ≠ '(' := by intro e; subst e; exact this r rfl
-      simp [codePart, opt, parenStr, paren, char_cons_ne hd]
+      by_cases hd : d = '('
+      · subst hd
+        obtain ⟨a, b, rfl, ha⟩ := this r rfl
+        have ht := takeTill0_append (p := isParenStrStop) (a := a) (rest := '\n' :: b) ha
+          (by intro x r e; cases e; rfl)
+        simp [codePart, opt, parenStr, paren, ht, char_cons_ne]
+      · simp [codePart, opt, parenStr, paren, char_cons_ne hd]
   | some c =>
-    have ht := takeTill0_append (p := fun x => x == ')') (a := c.toList) (rest := ')' :: ' ' :: Z)
-      (by intro x hx; simpa using hc c rfl x hx) (by intro x r e; cases e; simp)
+    have ht := takeTill0_append (p := isParenStrStop) (a := c.toList) (rest := ')' :: ' ' :: Z)
+      (hc c rfl) (by intro x r e; cases e; rfl)
     have hsp : (' ' :: Z).dropWhile isSpace = Z := by
       rw [List.dropWhile_cons_of_pos (by decide)]
       exact dropWhile_of_stop hZ
@@ -227,18 +258,12 @@ theorem transaction_rt (hE : ExprRT P) (w : List Char → Nat) (t : Transaction)
   have h6 := codeParser_rt t.code (by
       intro c e x hx
       rw [e] at hcode
-      simp only [List.all_eq_true] at hcode
+      simp only [wfCode, List.all_eq_true] at hcode
       simpa using hcode x hx) (t.payee.toList ++ '\n' :: Zm) hpstop (by
-    intro hc r e
+    intro hc
     rw [hc] at hp4
     simp only [Option.isSome_none, Bool.false_or, Bool.and_eq_true] at hp4
-    have hh := hp4.2
-    cases hpl : t.payee.toList with
-    | nil => rw [hpl] at e; cases e
-    | cons c r' =>
-      rw [hpl] at e hh
-      cases e
-      simp at hh)
+    exact noCodeAhead_payee hpchars hp4.2 Zm)
   -- 7. payee
   have h7 := payeeParser_rt t.payee.toList hpchars hp3 Zm
   -- 8. metadata
@@ -435,6 +460,36 @@ example : date (printDate ⟨9999, 12, 31⟩ ++ [' ']) = .ok ⟨9999, 12, 31⟩ 
   date_rt ⟨9999, 12, 31⟩ (by decide) [' '] (by simp)
 example : preceded space1 lineMetadata (printMetaLine (.comment "x y: z") ++ ['q']) = .ok (.comment "x y: z") ['q'] :=
   metaLine_rt_all _ (by decide +kernel) _
+
+/-! ## the transaction code must be closed on its line: payees that begin with `(`, codes with a line break
+
+`wfPayee` admits a payee that begins with `(` when no code is printed, provided it holds no `)` (it is read back as the
+payee: `paren_str` fails at the line end); with a `)` it would be read back as a code.  `wfCode` excludes CR and LF (before
+`paren_str` had to close on its line they were tolerated): the printed code would no longer be read as a code. -/
+
+/-- `2024/01/01 ! (abc⏎    A⏎` -/
+def exTxnParen : Transaction :=
+  { date := ⟨2024, 1, 1⟩, clear := .pending, payee := "(abc", posts := [{ account := "A" }] }
+
+theorem exTxnParen_wf : wfTransaction exTxnParen = true := by unfold exTxnParen; wf_decide
+example : exTxnParen.code = none ∧ exTxnParen.payee.toList.head? = some '(' := by decide
+example (hE : ExprRT P) : transaction (printTransaction widthStd exTxnParen ++ ['\n']) = .ok exTxnParen ['\n'] :=
+  transaction_rt hE widthStd exTxnParen exTxnParen_wf (by intro v hv; simp [exprsOfTransaction, exTxnParen, exprsOfPosting] at hv)
+    ['\n'] (by simp [isSpace])
+example : transactionRTCheck widthStd exTxnParen ['\n'] = true := by decide +kernel
+/-- also before an entry that holds a `)` (formerly the code ran on to it) -/
+example : transactionRTCheck widthStd exTxnParen "\naccount X)\n".toList = true := by decide +kernel
+
+/-- the two new conditions are needed: a payee `(a)bc` without code, a code with a line feed or a carriage return, are
+not read back -/
+theorem paren_conditions_needed :
+    (let t : Transaction := { date := ⟨2024, 1, 1⟩, payee := "(a)bc" }
+     wfTransaction t = false ∧ transactionRTCheck widthStd t ['\n'] = false) ∧
+    (let t : Transaction := { date := ⟨2024, 1, 1⟩, code := some "a\nb", payee := "x" }
+     wfTransaction t = false ∧ transactionRTCheck widthStd t ['\n'] = false) ∧
+    (let t : Transaction := { date := ⟨2024, 1, 1⟩, code := some "a\rb", payee := "x" }
+     wfTransaction t = false ∧ transactionRTCheck widthStd t ['\n'] = false) := by
+  decide +kernel
 
 /-! ## `wfVExpr` alone is not enough: the full-strength statements, and their negation from a witness
 
